@@ -480,7 +480,7 @@ pub fn property() -> Property {
         id: "C08",
         run,
         budget: |t| match t {
-            Tier::Quick => 3000,
+            Tier::Quick => 12000,
             Tier::Thorough => 300_000,
         },
         wall_cap_s: |t| match t {
